@@ -8,6 +8,7 @@ import (
 	"fmt"
 	"hash/fnv"
 	"os"
+	"runtime"
 	"sort"
 	"strconv"
 	"strings"
@@ -30,6 +31,7 @@ type ReplayFile struct {
 	Key         string            `json:"key"`
 	What        string            `json:"what"`
 	Race        bool              `json:"race,omitempty"`
+	Whole       bool              `json:"whole,omitempty"` // no choice list: the replay re-runs the whole harness job
 }
 
 // Violation is one failing execution.
@@ -198,6 +200,34 @@ func (c *Ctx) Explorer(budget int) *vx.Explorer {
 	return &vx.Explorer{Budget: budget, Shard: c.Shard, Shards: c.Shards, WantLabels: false, Stop: c.Expired}
 }
 
+// LibraryPanic inspects the stack of the panic being recovered (call it from the deferred
+// function): it reports the panicking repository function when the first frame that belongs to
+// the repository or to the harness is repository code (not an injected zz_verif_ file, not
+// verifh). A panic raised by harness code is a harness error, never a finding.
+func LibraryPanic() (fn string, ok bool) {
+	pcs := make([]uintptr, 64)
+	n := runtime.Callers(2, pcs)
+	frames := runtime.CallersFrames(pcs[:n])
+	seenPanic := false
+	for {
+		f, more := frames.Next()
+		if strings.HasPrefix(f.Function, "runtime.gopanic") || strings.HasPrefix(f.Function, "runtime.panic") || strings.HasPrefix(f.Function, "runtime.goPanic") || strings.HasPrefix(f.Function, "runtime.sigpanic") {
+			seenPanic = true
+		} else if seenPanic {
+			harness := strings.Contains(f.File, "zz_verif_") || strings.HasPrefix(f.Function, "verifh/") || strings.Contains(f.File, "/verif/h/")
+			if harness {
+				return "", false
+			}
+			if strings.HasPrefix(f.Function, "github.com/google/licenseclassifier") {
+				return fmt.Sprintf("%s (%s:%d)", f.Function[strings.LastIndex(f.Function, "/")+1:], f.File[strings.LastIndex(f.File, "/")+1:], f.Line), true
+			}
+		}
+		if !more {
+			return "", false
+		}
+	}
+}
+
 const replayEvery = 251
 
 // Harness is a registered harness body.
@@ -205,6 +235,7 @@ type Harness func(*Ctx)
 
 // Main is called from the in-package TestVerif of every harness package.
 func Main(t *testing.T, pkg string, reg map[string]Harness) {
+	wholeReplay := false
 	name := os.Getenv("VERIF_HARNESS")
 	if name == "" {
 		t.Skip("VERIF_HARNESS not set")
@@ -248,6 +279,10 @@ func Main(t *testing.T, pkg string, reg map[string]Harness) {
 			t.Fatal(err)
 		}
 		c.Replay = &rf
+		if rf.Whole {
+			c.Replay = nil
+			wholeReplay = true
+		}
 		c.Params = rf.Params
 		if c.Params == nil {
 			c.Params = map[string]string{}
@@ -269,8 +304,15 @@ func Main(t *testing.T, pkg string, reg map[string]Harness) {
 	func() {
 		defer func() {
 			if x := recover(); x != nil {
-				c.R.Fatal = fmt.Sprintf("harness panic: %v", x)
 				c.R.Exhaustive = false
+				if fn, ok := LibraryPanic(); ok {
+					// repository code panicked under a harness that does not expect panics: whatever the
+					// property demands of the call's result, the call did not deliver one
+					c.Violate("panic:"+fn, fmt.Sprintf("repository code panicked in %s: %v (the harness stopped here; replay re-runs the harness)", fn, x), nil, fmt.Sprint(x))
+					c.R.Violations[len(c.R.Violations)-1].Replay.Whole = true
+					return
+				}
+				c.R.Fatal = fmt.Sprintf("harness panic: %v", x)
 			}
 		}()
 		h(c)
@@ -288,7 +330,7 @@ func Main(t *testing.T, pkg string, reg map[string]Harness) {
 	if c.R.Fatal != "" {
 		t.Fatalf("%s", c.R.Fatal)
 	}
-	if c.Replay != nil && c.R.NViolations > 0 {
+	if (c.Replay != nil || wholeReplay) && c.R.NViolations > 0 {
 		t.Fatalf("replayed violation reproduced: %s", c.R.Violations[0].What)
 	}
 }
@@ -296,6 +338,29 @@ func Main(t *testing.T, pkg string, reg map[string]Harness) {
 // Run drives a body either in replay mode (exactly the recorded choice list)
 // or through the explorer. check is called after every execution.
 func (c *Ctx) Run(e *vx.Explorer, body func(*vx.Run), check func(*vx.Run)) {
+	inner, innerCheck := body, check
+	body = func(r *vx.Run) {
+		defer func() {
+			if x := recover(); x != nil {
+				if fn, ok := LibraryPanic(); ok {
+					r.Note = map[string]interface{}{"__panic": fmt.Sprint(x), "__fn": fn}
+					return
+				}
+				panic(x)
+			}
+		}()
+		inner(r)
+	}
+	check = func(r *vx.Run) {
+		if p, ok := r.Note["__panic"].(string); ok {
+			fn := r.Note["__fn"].(string)
+			c.Violate("panic:"+fn, fmt.Sprintf("repository code panicked in %s: %s (choices %v)", fn, p, r.Choices), r, p)
+			return
+		}
+		if innerCheck != nil {
+			innerCheck(r)
+		}
+	}
 	if c.Replay != nil {
 		r := vx.Replay(c.Replay.Choices, body)
 		c.R.Evaluations++
